@@ -4,7 +4,7 @@
 cd "$(dirname "$0")/.."
 TIER="${1:-quick}"; FILTER="${2:-}"
 for d in seeded/*/; do
-  id=$(basename "$d"); [[ -n "$FILTER" && "$id" != *"$FILTER"* ]] && continue
+  id=$(basename "$d"); [[ -n "$FILTER" && ! "$id" =~ $FILTER ]] && continue
   prop=$(python3 -c "import json;print(json.load(open('$d/meta.json'))['property'])")
   WT=$(mktemp -d /tmp/vf-seed-XXXXXX); rmdir "$WT"
   git -C /repo worktree add -q --detach "$WT" HEAD || { echo "$id $prop WORKTREE-FAILED"; continue; }
